@@ -90,6 +90,10 @@ class Operator(Token):
     def ast(self, tokens, stack, builder):
         super(Operator, self).ast(tokens, stack, builder)
         self.update_name(tokens, stack)
+        if self.get_n_args == 2 and isinstance(
+                tokens[max(tokens.index(self) - 1, 0)], Separator
+        ):  # E.g., `=SUM(1,*2)`: the left operand is missing.
+            raise FormulaError()
         pred = self.pred
         while stack and isinstance(stack[-1], Operator):
             if pred > stack[-1].pred:
